@@ -72,9 +72,11 @@ let eqv (cfg : gw_cfg) (s : gw_state) (m : iout) (im : iout) : bool =
          d1 = d2 && q1 = q2 && r1 = r2 && ti1 = ti2 && m1 = m2 && p1 = p2 &&
          (match int_of_n ti1 with
           | 0 -> nmap_lookup t1 s.gw_registered <> None && nmap_lookup t1 s.gw_registered = nmap_lookup t2 s.gw_registered
-          | 1 -> (* several predefined IDs of one name: Go's map iteration order picks one *)
-            let nm t = get_name cfg.predefined s.gw_client_id t in
-            nm t1 <> None && nm t1 = nm t2
+          | 1 -> (* several predefined IDs of one name: Go's map iteration order picks one.  A retransmission
+                    (DUP) repeats the ID chosen when the packet was first built, possibly under the client ID
+                    of an earlier CONNECT of this session: any client ID of the configuration may have been it *)
+            let same cid = (let nm t = get_name cfg.predefined cid t in nm t1 <> None && nm t1 = nm t2) in
+            same s.gw_client_id || (d1 && List.exists (fun (cid, _) -> same cid) cfg.predefined)
           | _ -> false)
        | _ -> false)
     | _ -> false))
